@@ -276,6 +276,10 @@ func (jf *JSONFamily) decodePlain(e *FuncEnc, d, raw string, t types.Type, s *Re
 		// any: the raw message itself is kept
 		return "false", raw, ""
 	}
+	t = types.Unalias(t)
+	if ownCodecMissing(t, "UnmarshalJSON") && !isWrapperType(t) {
+		return "false", e.D.Zero(t), fmt.Sprintf("Go type %s has no UnmarshalJSON of its own (a defined type does not have the methods of its base type): it is decoded by reflection", t)
+	}
 	if !goKindMatches(t, s) {
 		return "false", e.D.Zero(t), fmt.Sprintf("Go type %s does not decode JSON %q", t, s.Type)
 	}
@@ -374,7 +378,7 @@ func (jf *JSONFamily) unSpec(e *FuncEnc, jt *jsonType, c, err string, has0, val0
 		got := e.load(post, u.addr, u.m.Type)
 		outF = append(outF, NamedFormula{Name: "ensures#decodes:" + u.m.Name, Props: []string{"C08", "C06"}, Formula: implies(ok, jf.sameDecoded(e, got, ite(u.present, u.value, u.zero), u.m.Type))})
 		// strictness: a non-null value of another JSON kind is rejected
-		if k := jsonKindOfSchema(u.m.Schema); k != 0 {
+		if k := jsonKindOfSchema(u.m.Schema); k != 0 && !jf.ownCodecUnverified(u.m.Type) {
 			outF = append(outF, NamedFormula{Name: "ensures#strict-type:" + u.m.Name, Props: []string{"C08"}, Formula: implies(and(u.present, not(sx("docNull", u.doc)), not(eq(sx("docKind", u.doc), itoa(int64(k))))), not(ok))})
 		}
 	}
@@ -420,7 +424,7 @@ func (jf *JSONFamily) installUnInner(f *ssa.Function, jt *jsonType) {
 			notDecl = append(notDecl, not(eq("kq", e.D.Lit(mm.Name))))
 		}
 		okk := eq(sx("if_tag", err), "0")
-		fs = append(fs, NamedFormula{Name: "ensures#consumes-declared", Props: []string{"C08"}, Formula: implies(and(okk, not(eq(m, "0"))), fmt.Sprintf("(forall ((kq Str)) (! (and (= (select %s kq) (and (select %s kq) %s)) (=> %s (= (select %s kq) (select %s kq)))) :pattern ((select %s kq)) :pattern ((select %s kq))))", has1, has0, and(notDecl...), and(notDecl...), val1, val0, has1, val1))})
+		fs = append(fs, NamedFormula{Name: "ensures#consumes-declared", Props: []string{"C08", "C06"}, Formula: implies(and(okk, not(eq(m, "0"))), fmt.Sprintf("(forall ((kq Str)) (! (and (= (select %s kq) (and (select %s kq) %s)) (=> %s (= (select %s kq) (select %s kq)))) :pattern ((select %s kq)) :pattern ((select %s kq))))", has1, has0, and(notDecl...), and(notDecl...), val1, val0, has1, val1))})
 		return fs
 	}
 	if jt.AP {
@@ -1023,4 +1027,16 @@ func replaceVar(body, v, by string) string {
 		body = re.ReplaceAllString(body, "${1}"+strings.ReplaceAll(by, "$", "$$")+"${2}")
 	}
 	return body
+}
+
+// ownCodecUnverified: the member type decodes itself with an UnmarshalJSON that
+// is not under a family contract (date / date-time components): what it rejects
+// is not known here, so no strictness clause is stated for such members.
+func (jf *JSONFamily) ownCodecUnverified(t types.Type) bool {
+	_, inner := wrapperOf(types.Unalias(t))
+	if !isTimeComponent(inner) {
+		return false
+	}
+	jf.note("JSON methods of date / date-time components (`type X time.Time`) are not under contract: their outcome is an uninterpreted function of the document, no strictness clause for such members")
+	return true
 }
